@@ -40,6 +40,13 @@ def run(repo, rep):
     rep.rule('C19.U3', 'progress: at the k-th report completed = k and remaining = total - k (counter incremented before the '
              'fields are filled; starts at 0, step 1); the final response reports the same counters', 1)
     rep.rule('C19.U4', 'exactly one final (non-pending) C-MOVE response on every path, also when there is nothing to move', 1)
+    rep.rule('C19.U5', 'each report keeps the counters it was sent with: a report constructed over another message\'s command set and then '
+             'written to holds a deep copy of it (the same Dataset or a shallow copy shares the DataElement objects the counters are '
+             'written into; same analysis as C17.P9)', 1)
+    from ..svc_model import shared_command_set_problems as _scsp
+    _p5, _n5 = _scsp(repo)
+    rep.check(not _p5, 'C19.U5', 'sopclass:reports:own-command-set', repo.module('sopclass').relpath,
+              '%d message(s) constructed over an existing command set, none shares elements it writes' % _n5, '; '.join(_p5[:3]))
 
     # ---------------------------------------------------------------- U1
     f = repo.func('sopclass', 'qr_get_scu')
@@ -188,6 +195,9 @@ def run(repo, rep):
     p4 = []
     n_paths = 0
     for s, how in a.finals:
+        if how == 'raise:AttributeError':
+            p4.append('a path ends with AttributeError instead of the final response: a generator-only method (close / send / throw) is '
+                      'called on what on_receive_move returned, which may be any iterable (a list, iter(..)) -- test hasattr() first')
         if how.startswith('raise'):
             continue
         n_paths += 1
